@@ -476,6 +476,9 @@ func describe(o object.Object) string {
 	if o == nil {
 		return "NIL"
 	}
+	if bad := malformed(o, 1, nil); bad != "" {
+		return "MALFORMED (" + bad + ")" // printing it would crash, or never end
+	}
 	return string(o.Type()) + " " + strconv.Quote(o.Inspect())
 }
 
@@ -484,6 +487,9 @@ func describe(o object.Object) string {
 func (v Val) matches(o object.Object) (bool, string) {
 	if o == nil {
 		return false, "nil object"
+	}
+	if bad := malformed(o, 1, nil); bad != "" {
+		return false, "MALFORMED (" + bad + ")"
 	}
 	want := typeNames[v.Tag]
 	if string(o.Type()) != want {
